@@ -15,7 +15,8 @@ def var_domains(case, objs) -> List[list]:
     out = []
     for vd in case["vars"]:
         cls = CLASSES[vd.get("type", "Ent")]
-        out.append([objs[i] for i in case["doms"][vd["dom"]] if isinstance(objs[i], cls)])
+        out.append([objs[i] for i in case["doms"][vd["dom"]] if isinstance(objs[i], cls)
+                    and all(getattr(objs[i], f) == dec(c) for f, c in vd.get("kw", []))])
     return out
 
 
@@ -148,11 +149,17 @@ def case_features(case, objs=None) -> List[str]:
         f.add("mixed_types")
     if any(not d for d in case["doms"]):
         f.add("empty_domain")
+    if any(v.get("kw") for v in case["vars"]):
+        f.add("predicate_form_var")
     # a variable whose (type-filtered) domain is empty and that occurs beneath a disjunction (or a negation, which
     # De Morgan turns into one): the engine never reaches it on the other disjunct
+    def _rec_val(r, f):
+        v = r.get(f)
+        return dec(v) if f == "o" else (tuple(v) if f == "tags" else v)
     empty_vars = {i for i, v in enumerate(case["vars"])
                   if not [j for j in case["doms"][v["dom"]]
-                          if case["ents"][j].get("cls", "Ent") in ("Ent", "EntSub", "EntPlain", "EntV")]}
+                          if case["ents"][j].get("cls", "Ent") in ("Ent", "EntSub", "EntPlain", "EntV")
+                          and all(_rec_val(case["ents"][j], f) == dec(c) for f, c in v.get("kw", []))]}
     if empty_vars:
         def under(n, inside):
             if n[0] in ("or", "not"):
@@ -258,7 +265,8 @@ def render_query(case):
             ents.append(f"#{i}:{r['cls']}(a={r['a']},b={r['b']},s={r['s']!r},tags={r.get('tags')},o={dec(r.get('o', 1))!r},"
                         f"ref=#{r.get('ref')},kids={r.get('kids')})")
     return {"entities": ents,
-            "vars": [f"v{i}={v.get('decl', 'let')}({v.get('type', 'Ent')}, dom{v['dom']})" for i, v in enumerate(case["vars"])],
+            "vars": [f"v{i}={v.get('decl', 'let')}({v.get('type', 'Ent')}, dom{v['dom']}"
+                     + "".join(f", {f}={dec(c)!r}" for f, c in v.get("kw", [])) + ")" for i, v in enumerate(case["vars"])],
             "doms": case["doms"], "dom_kind": case.get("dom_kind"),
             "cond": A.r_cond(case["cond"]) if case.get("cond") is not None else None,
             "split_top": case.get("split_top"),
